@@ -76,6 +76,30 @@ class Obj:
         return o
 
 
+class LazyIter:
+    """a lazy iterator (iter(callable, sentinel), itertools.takewhile over one ...): `pull(I, node)` returns the next item or LazyIter.STOP.
+    A for loop that leaves early does not consume the rest (e.g. a reader that stops at a section header)."""
+    STOP = object()
+
+    def __init__(self, pull, label="iterator"):
+        self.pull = pull
+        self.label = label
+
+    def __deepcopy__(self, memo):
+        return self
+
+    def __repr__(self):
+        return f"<LazyIter {self.label}>"
+
+
+class PySet(list):
+    """a python set / frozenset: duplicate-free, iteration in insertion order; equality and the set operators ignore the order"""
+    __slots__ = ()
+
+    def __deepcopy__(self, memo):
+        return PySet(copy.deepcopy(x, memo) for x in self)
+
+
 class Opaque:
     """opaque library value / result; `tag` is its provenance"""
 
@@ -880,6 +904,9 @@ class Interp:
             return self.to_py(k, node)
         if isinstance(k, (list, dict)):
             raise self.fault("TypeError", node, "unhashable type")
+        if isinstance(k, Opaque) and k.tag == "str":
+            # a text the analysis could not make concrete used as a key: whether the key exists is unknown - never a KeyError verdict
+            self.err(node, "dictionary key is a text the analysis cannot determine (formatted string over abstract values)")
         return k
 
     # -- truthiness / comparison ------------------------------------------------
@@ -954,6 +981,20 @@ class Interp:
             if isinstance(y, simple) or isinstance(y, (list, tuple, dict)):
                 return False
             return None
+        if isinstance(a, PySet) or isinstance(b, PySet):
+            if not (isinstance(a, PySet) and isinstance(b, PySet)):
+                return False
+            if len(a) != len(b):
+                return False
+            res = True
+            for x in a:
+                es = [self.py_eq(x, y) for y in b]
+                if any(e is True for e in es):
+                    continue
+                if all(e is False for e in es):
+                    return False
+                res = None
+            return res
         if isinstance(a, (list, tuple)) and isinstance(b, (list, tuple)):
             if type(a) is not type(b):
                 return False
@@ -1309,6 +1350,16 @@ class Interp:
         if type(a).__name__ == "Vec" or type(b).__name__ == "Vec":
             from .libsum import vec_binop
             return vec_binop(self, op, a, b, node)
+        if isinstance(a, PySet) and isinstance(b, PySet) and isinstance(op, (ast.BitAnd, ast.BitOr, ast.Sub, ast.BitXor)):
+            def has(s_, x):
+                return any(x is y or self.py_eq(x, y) is True for y in s_)
+            if isinstance(op, ast.BitOr):
+                return self.mkset(list(a) + list(b))
+            if isinstance(op, ast.BitAnd):
+                return PySet(x for x in a if has(b, x))
+            if isinstance(op, ast.Sub):
+                return PySet(x for x in a if not has(b, x))
+            return PySet([x for x in a if not has(b, x)] + [x for x in b if not has(a, x)])
         if isinstance(op, (ast.BitAnd, ast.BitOr)):
             if isinstance(a, Mask) or isinstance(b, Mask):
                 return Mask(f"({self.describe_mask(a)}{'&' if isinstance(op, ast.BitAnd) else '|'}{self.describe_mask(b)})")
@@ -1566,6 +1617,9 @@ class Interp:
                     parts.append(x)
                 elif x is None:
                     parts.append("None")
+                elif v.format_spec is None and v.conversion == -1 and not isinstance(x, bool) and (
+                        (isinstance(x, Num) and x.is_const() and x.value().denominator == 1) or (_is_sym(x) and x.is_Integer)):
+                    parts.append(str(int(x.value()) if isinstance(x, Num) else int(x)))      # f"K{i}" with a literal loop index
                 elif getattr(self, "sym_strings", False):
                     from .docsim import sstr_of
                     if isinstance(x, Obj) and x.cls is not None and x.cls.find_method("__str__") is not None:
@@ -1598,7 +1652,14 @@ class Interp:
         return tuple(self.e_List(node, env))
 
     def e_Set(self, node, env):
-        return list(self.e_List(node, env))
+        return self.mkset(self.e_List(node, env))
+
+    def mkset(self, items):
+        out = PySet()
+        for v in items:
+            if not any(v is x or self.py_eq(v, x) is True for x in out):
+                out.append(v)
+        return out
 
     def e_Dict(self, node, env):
         d = {}
@@ -1636,7 +1697,7 @@ class Interp:
             if not any(v is x or self.py_eq(v, x) is True for x in out):
                 out.append(v)
         self._comp(node.generators, env, add)
-        return out          # sets are modelled as duplicate-free lists (iteration order = insertion order)
+        return PySet(out)          # sets are modelled as duplicate-free lists (iteration order = insertion order)
 
     def e_DictComp(self, node, env):
         out = {}
@@ -1659,6 +1720,8 @@ class Interp:
         self.err(node, "starred expression outside call")
 
     def iterate(self, v, node):
+        if isinstance(v, LazyIter):
+            return list(self._lazy_items(v, node))
         if isinstance(v, (list, tuple)):
             return list(v)
         if isinstance(v, dict):
@@ -1812,8 +1875,17 @@ class Interp:
         if pending is not None:
             raise pending
 
+    def _lazy_items(self, lz, node):
+        for _ in range(5000):
+            x = lz.pull(self, node)
+            if x is LazyIter.STOP:
+                return
+            yield x
+        self.err(node, "lazy iterator does not terminate")
+
     def s_For(self, st, env):
-        items = self.iterate(self.eval(st.iter, env), st.iter)
+        itv = self.eval(st.iter, env)
+        items = self._lazy_items(itv, st.iter) if isinstance(itv, LazyIter) else self.iterate(itv, st.iter)
         broke = False
         for it in items:
             self.assign(st.target, it, env)
@@ -1902,6 +1974,28 @@ class Interp:
     # -- builtins ------------------------------------------------------------------------
     def _install_builtins(self):
         E = self.ext
+        # functools.reduce / operator.* handed around as function values
+        _OPS = {"add": ast.Add, "sub": ast.Sub, "mul": ast.Mult, "truediv": ast.Div, "pow": ast.Pow, "floordiv": ast.FloorDiv, "mod": ast.Mod,
+                "matmul": ast.MatMult, "and_": ast.BitAnd, "or_": ast.BitOr}
+        for nm_, op_ in _OPS.items():
+            E[f"operator.{nm_}"] = (lambda op_: lambda I, a, k, n: I.binop(op_(), a[0], a[1], n))(op_)
+        E["operator.neg"] = lambda I, a, k, n: I.binop(ast.Sub(), Num.const(0), a[0], n)
+        E["operator.itemgetter"] = lambda I, a, k, n: Obj(kind="ItemGetter", label="itemgetter", attrs={"keys": list(a)})
+        self.libmeth[("ItemGetter", "__call__")] = lambda I, v, a, k, n: (I.getitem(a[0], v.attrs["keys"][0], n) if len(v.attrs["keys"]) == 1
+                                                                          else tuple(I.getitem(a[0], x, n) for x in v.attrs["keys"]))
+
+        def b_reduce(I, a, k, n):
+            seq = list(I.iterate(a[1], n))
+            if len(a) > 2:
+                acc = a[2]
+            elif seq:
+                acc = seq.pop(0)
+            else:
+                raise I.fault("TypeError", n, "reduce() of empty iterable with no initial value")
+            for x in seq:
+                acc = I.call_value(a[0], [acc, x], {}, n)
+            return acc
+        E["functools.reduce"] = b_reduce
         # regular-expression functions on concrete text: evaluated by the checker's own `re` (a pure function of its arguments)
         import re as _re
 
@@ -1921,6 +2015,10 @@ class Interp:
         # context managers that do not change any value: floating-point error state, warning filters
         for nm in ("numpy.errstate", "warnings.catch_warnings", "contextlib.nullcontext"):
             E[nm] = lambda I, a, k, n: Obj(kind="NullContext", label="context")
+        # contextlib.closing(x): enters with x, calls x.close() on exit (normal or exceptional)
+        E["contextlib.closing"] = lambda I, a, k, n: Obj(kind="Closing", label="closing", attrs={"thing": a[0]})
+        self.libmeth[("Closing", "__enter__")] = lambda I, v, a, k, n: v.attrs["thing"]
+        self.libmeth[("Closing", "__exit__")] = lambda I, v, a, k, n: I.call_value(I.getattr_(v.attrs["thing"], "close", n), [], {}, n)
         self.libmeth[("NullContext", "__enter__")] = lambda I, v, a, k, n: None
         self.libmeth[("NullContext", "__exit__")] = lambda I, v, a, k, n: None
 
@@ -1947,8 +2045,12 @@ class Interp:
                         return True
                 elif isinstance(x, ExtRef):
                     nm = x.dotted.split(".")[-1]
+                    if nm in ("set", "frozenset"):
+                        if isinstance(v, PySet):
+                            return True
+                        continue
                     pyt = {"dict": dict, "str": str, "list": list, "tuple": tuple, "bool": bool}.get(nm)
-                    if pyt is not None and isinstance(v, pyt):
+                    if pyt is not None and isinstance(v, pyt) and not (nm == "list" and isinstance(v, PySet)):
                         return True
                     if nm in ("float", "int") and isinstance(v, Num):
                         return True
@@ -2066,6 +2168,13 @@ class Interp:
             return f
 
         def b_next(I, a, k, n):
+            if isinstance(a[0], LazyIter):
+                x = a[0].pull(I, n)
+                if x is not LazyIter.STOP:
+                    return x
+                if len(a) > 1:
+                    return a[1]
+                raise Raised(ExcVal(_BUILTIN_EXC["StopIteration"], node=n))
             items = a[0] if isinstance(a[0], list) else I.iterate(a[0], n)
             if items:
                 return items[0]
@@ -2118,17 +2227,46 @@ class Interp:
 
         def b_iter(I, a, k, n):
             if len(a) == 1:
-                return list(I.iterate(a[0], n))
-            out = []
-            for _ in range(2000):       # iter(callable, sentinel)
-                v = I.call_value(a[0], [], {}, n)
-                e = I.py_eq(v, a[1])
-                if e is True:
-                    return out
+                return a[0] if isinstance(a[0], LazyIter) else list(I.iterate(a[0], n))
+            fn, sentinel = a[0], a[1]
+            done = [False]
+
+            def pull(I, node):       # iter(callable, sentinel): lazy - each item is produced when asked for
+                if done[0]:
+                    return LazyIter.STOP
+                v = I.call_value(fn, [], {}, node)
+                e = I.py_eq(v, sentinel)
                 if e is None:
-                    I.err(n, "iter(callable, sentinel): cannot decide whether the sentinel was reached")
-                out.append(v)
-            I.err(n, "iter(callable, sentinel) does not terminate")
+                    I.err(node, "iter(callable, sentinel): cannot decide whether the sentinel was reached")
+                if e is True:
+                    done[0] = True
+                    return LazyIter.STOP
+                return v
+            return LazyIter(pull, "iter(callable, sentinel)")
+
+        def b_takewhile(I, a, k, n):
+            pred, src = a
+            if not isinstance(src, LazyIter):
+                out = []
+                for x in I.iterate(src, n):
+                    if not I.truth(I.call_value(pred, [x], {}, n), n):
+                        break
+                    out.append(x)
+                return out
+            done = [False]
+
+            def pull(I, node):
+                if done[0]:
+                    return LazyIter.STOP
+                x = src.pull(I, node)
+                if x is LazyIter.STOP or not I.truth(I.call_value(pred, [x], {}, node), node):
+                    done[0] = True
+                    return LazyIter.STOP
+                return x
+            return LazyIter(pull, "takewhile")
+        E["itertools.takewhile"] = b_takewhile
+        E["itertools.chain"] = lambda I, a, k, n: [x for part in a for x in I.iterate(part, n)]
+        E["itertools.islice"] = lambda I, a, k, n: list(I.iterate(a[0], n))[slice(*[None if x is None else int(I.to_py(x, n)) for x in a[1:]])]
         E["builtins.iter"] = b_iter
         E["builtins.hasattr"] = b_hasattr
         E["builtins.any"] = b_any
@@ -2141,7 +2279,8 @@ class Interp:
         E["builtins.sorted"] = b_sorted
         E["builtins.list"] = lambda I, a, k, n: list(I.iterate(a[0], n)) if a else []
         E["builtins.tuple"] = lambda I, a, k, n: tuple(I.iterate(a[0], n)) if a else ()
-        E["builtins.set"] = lambda I, a, k, n: list(dict.fromkeys(I.iterate(a[0], n))) if a else []
+        E["builtins.set"] = lambda I, a, k, n: I.mkset(I.iterate(a[0], n)) if a else PySet()
+        E["builtins.frozenset"] = E["builtins.set"]
         E["builtins.dict"] = lambda I, a, k, n: {**(dict(a[0]) if a and isinstance(a[0], dict) else
                                                      dict(I.iterate(a[0], n)) if a else {}), **k}
         E["builtins.print"] = lambda I, a, k, n: None
